@@ -4,6 +4,7 @@ import (
 	"fmt"
 	"runtime"
 	"runtime/debug"
+	"sort"
 	"sync"
 	"sync/atomic"
 )
@@ -60,3 +61,7 @@ func try(f func()) (p interface{}, stack string) {
 	f()
 	return nil, ""
 }
+
+type syncMutex = sync.Mutex
+
+func sortStrings(s []string) { sort.Strings(s) }
